@@ -116,3 +116,25 @@ pub(crate) async fn quotes_verification(network: &Network, quotes: Vec<(PeerId, 
         }
     }
 }
+
+/// Verification hooks (compiled only with `--cfg maidsafe_safe_network_verif`): pass-throughs to the
+/// crate-private quoting-duty functions for the external /verif harness. Nothing here is used by
+/// the crate itself.
+#[cfg(maidsafe_safe_network_verif)]
+pub mod verif {
+    use super::*;
+
+    /// Pass-through to `quotes_verification`.
+    pub async fn quotes_verification(network: &Network, quotes: Vec<(PeerId, PaymentQuote)>) {
+        super::quotes_verification(network, quotes).await
+    }
+
+    /// Pass-through to `verify_quote_for_storecost`; an error is reported by its Debug text.
+    pub fn verify_quote_for_storecost(
+        network: &Network,
+        quote: PaymentQuote,
+        address: &NetworkAddress,
+    ) -> std::result::Result<(), String> {
+        super::verify_quote_for_storecost(network, quote, address).map_err(|err| format!("{err:?}"))
+    }
+}
